@@ -1,0 +1,248 @@
+//! Verification hook: writer / connection-task races on the flow-control credit, explored
+//! with `loom`.
+//!
+//! Compiled only with `RUSTFLAGS="--cfg loom --cfg penguin_rs_verif"` in the crate's own test
+//! target; without these flags this file is not part of the build.
+//!
+//! Every scenario runs the real [`MuxStream::poll_write_push`] (and so
+//! [`MuxStream::poll_obtain_write_permission`]) on one thread against the real
+//! `EstablishedStreamData::acknowledge` / `EstablishedStreamData::disallow_write` on other
+//! threads, each poll with its own counting waker, and records the *set* of final outcomes over
+//! all the interleavings `loom` explores. One line is printed per distinct outcome:
+//!
+//! ```text
+//! OUTCOME <scenario> res=<P|S|N>,..;credit=<n>;wakes=<n>,..;closed=<0|1>;frames=<n>
+//! EXPLORED <scenario> <iterations>
+//! ```
+//!
+//! `res` lists the poll results in order (`S` = `Ready(Some(()))`, `N` = `Ready(None)`,
+//! `P` = `Pending`), `wakes` how often the waker of each poll was woken, `credit` / `closed` the
+//! final values of `psh_send_remaining` / `finish_sent`, and `frames` the number of `Push` frames
+//! handed to the task. A scenario is named `c<initial credit>-p<polls>[-a<n>|-x]*` where `a<n>`
+//! is a thread calling `acknowledge(n)` and `x` a thread calling `disallow_write()`.
+//! The polls are sequential on the writer thread and unconditional (the second poll does not
+//! wait for a wake; a spurious re-poll is always legal for a future).
+//
+// SPDX-License-Identifier: Apache-2.0 OR GPL-3.0-or-later
+
+extern crate std;
+
+use super::EstablishedStreamData;
+use crate::loom::{Arc, AtomicBool, AtomicU32, AtomicWaker, Ordering};
+use crate::stream::MuxStream;
+use alloc::format;
+use alloc::string::{String, ToString};
+use alloc::vec::Vec;
+use bytes::Bytes;
+use core::task::{Context, Poll, Waker};
+use std::collections::{BTreeMap, BTreeSet};
+use std::println;
+use std::sync::Mutex as StdMutex;
+use std::sync::atomic::{AtomicUsize, Ordering as StdOrdering};
+use std::task::Wake;
+use tokio::sync::mpsc;
+
+/// Outcome sets per scenario; lives outside of `loom`'s model on purpose.
+static OUTCOMES: StdMutex<BTreeMap<String, BTreeSet<String>>> = StdMutex::new(BTreeMap::new());
+
+/// A waker that only counts how often it was woken (not visible to `loom`).
+struct CountWaker(AtomicUsize);
+
+impl Wake for CountWaker {
+    fn wake(self: std::sync::Arc<Self>) {
+        self.0.fetch_add(1, StdOrdering::SeqCst);
+    }
+}
+
+#[derive(Clone, Copy, Debug)]
+enum Actor {
+    Ack(u32),
+    Close,
+}
+
+#[derive(Clone, Debug)]
+struct Scenario {
+    credit: u32,
+    polls: usize,
+    actors: Vec<Actor>,
+}
+
+fn parse_scenario(name: &str) -> Option<Scenario> {
+    let mut it = name.split('-');
+    let credit = it.next()?.strip_prefix('c')?.parse().ok()?;
+    let polls = it.next()?.strip_prefix('p')?.parse().ok()?;
+    let mut actors = Vec::new();
+    for tok in it {
+        if tok == "x" {
+            actors.push(Actor::Close);
+        } else {
+            actors.push(Actor::Ack(tok.strip_prefix('a')?.parse().ok()?));
+        }
+    }
+    Some(Scenario {
+        credit,
+        polls,
+        actors,
+    })
+}
+
+fn join_nums(xs: impl Iterator<Item = usize>) -> String {
+    let v: Vec<String> = xs.map(|x| x.to_string()).collect();
+    if v.is_empty() {
+        "-".to_string()
+    } else {
+        v.join(",")
+    }
+}
+
+/// One execution of the scenario inside `loom`'s model; returns the canonical outcome.
+fn run_once(sc: &Scenario) -> String {
+    let (_rx_frame_tx, rx_frame_rx) = mpsc::channel(1);
+    let (tx_msg_tx, mut tx_msg_rx) = mpsc::unbounded_channel();
+    let (dropped_flows_tx, _dropped_flows_rx) = mpsc::unbounded_channel();
+    let finish_sent = Arc::new(AtomicBool::new(false));
+    let psh_send_remaining = Arc::new(AtomicU32::new(sc.credit));
+    let writer_waker = Arc::new(AtomicWaker::new());
+    let stream = MuxStream {
+        rx_frame_rx,
+        flow_id: 1,
+        dest_host: Bytes::new(),
+        dest_port: 8080,
+        finish_sent: finish_sent.clone(),
+        psh_send_remaining: psh_send_remaining.clone(),
+        psh_recvd_since: 0,
+        writer_waker: writer_waker.clone(),
+        buf: Bytes::new(),
+        tx_msg_tx,
+        dropped_flows_tx,
+        rwnd_threshold: 4,
+    };
+    // The slot side of the same flow, as `Multiplexor`/`Task` hold it
+    let slot = Arc::new(EstablishedStreamData {
+        sender: None,
+        finish_sent: finish_sent.clone(),
+        psh_send_remaining: psh_send_remaining.clone(),
+        writer_waker,
+    });
+    let handles: Vec<_> = sc
+        .actors
+        .iter()
+        .map(|actor| {
+            let slot = slot.clone();
+            let actor = *actor;
+            loom::thread::spawn(move || match actor {
+                Actor::Ack(n) => slot.acknowledge(n),
+                Actor::Close => {
+                    slot.disallow_write();
+                }
+            })
+        })
+        .collect();
+    // The writer runs on this thread
+    let counters: Vec<std::sync::Arc<CountWaker>> = (0..sc.polls)
+        .map(|_| std::sync::Arc::new(CountWaker(AtomicUsize::new(0))))
+        .collect();
+    let mut results = Vec::new();
+    for counter in &counters {
+        let waker = Waker::from(counter.clone());
+        let cx = Context::from_waker(&waker);
+        results.push(match stream.poll_write_push(&cx, b"x") {
+            Poll::Ready(Some(())) => "S",
+            Poll::Ready(None) => "N",
+            Poll::Pending => "P",
+        });
+    }
+    for handle in handles {
+        handle.join().expect("actor thread panicked");
+    }
+    let credit = psh_send_remaining.load(Ordering::SeqCst);
+    let closed = finish_sent.load(Ordering::SeqCst);
+    let mut frames = 0;
+    while tx_msg_rx.try_recv().is_ok() {
+        frames += 1;
+    }
+    let res = if results.is_empty() {
+        "-".to_string()
+    } else {
+        results.join(",")
+    };
+    format!(
+        "res={res};credit={credit};wakes={};closed={};frames={frames}",
+        join_nums(counters.iter().map(|c| c.0.load(StdOrdering::SeqCst))),
+        u8::from(closed),
+    )
+}
+
+fn run_scenario(name: &str) {
+    let sc = parse_scenario(name).expect("scenario name");
+    let iterations = std::sync::Arc::new(AtomicUsize::new(0));
+    let iterations2 = iterations.clone();
+    let name2 = name.to_string();
+    // `Builder::new` reads `LOOM_MAX_PREEMPTIONS` & co. from the environment
+    loom::model::Builder::new().check(move || {
+        let outcome = run_once(&sc);
+        iterations2.fetch_add(1, StdOrdering::SeqCst);
+        OUTCOMES
+            .lock()
+            .expect("outcome set")
+            .entry(name2.clone())
+            .or_default()
+            .insert(outcome);
+    });
+    let all = OUTCOMES.lock().expect("outcome set");
+    for outcome in all.get(name).into_iter().flatten() {
+        println!("OUTCOME {name} {outcome}");
+    }
+    println!(
+        "EXPLORED {name} {}",
+        iterations.load(StdOrdering::SeqCst)
+    );
+}
+
+macro_rules! scenarios {
+    ($($test:ident => $name:literal),* $(,)?) => {
+        $(
+            #[test]
+            fn $test() {
+                run_scenario($name);
+            }
+        )*
+    };
+}
+
+// {credit 0, 1} x {1 poll, 2 polls} x {ack, close, ack+close, ack+ack, ack+ack+close}
+scenarios! {
+    c0_p1_a1 => "c0-p1-a1",
+    c0_p1_x => "c0-p1-x",
+    c0_p1_a1_x => "c0-p1-a1-x",
+    c0_p1_a1_a1 => "c0-p1-a1-a1",
+    c0_p1_a2_x_x => "c0-p1-a2-x-x",
+    c0_p1_a1_a1_x => "c0-p1-a1-a1-x",
+    c1_p1_a1 => "c1-p1-a1",
+    c1_p1_x => "c1-p1-x",
+    c1_p1_a1_x => "c1-p1-a1-x",
+    c1_p1_a1_a1 => "c1-p1-a1-a1",
+    c1_p1_a1_a1_x => "c1-p1-a1-a1-x",
+    c0_p2_a1 => "c0-p2-a1",
+    c0_p2_x => "c0-p2-x",
+    c0_p2_a2 => "c0-p2-a2",
+    c0_p2_a1_x => "c0-p2-a1-x",
+    c0_p2_a1_a1 => "c0-p2-a1-a1",
+    c0_p2_a1_a1_x => "c0-p2-a1-a1-x",
+    c1_p2_a1 => "c1-p2-a1",
+    c1_p2_x => "c1-p2-x",
+    c1_p2_a1_x => "c1-p2-a1-x",
+    c1_p2_a1_a1 => "c1-p2-a1-a1",
+    c1_p2_a1_a1_x => "c1-p2-a1-a1-x",
+}
+
+/// Scenarios named in `PENGUIN_VERIF_SCENARIOS` (space or comma separated); used for replays.
+#[test]
+fn from_env() {
+    let Ok(list) = std::env::var("PENGUIN_VERIF_SCENARIOS") else {
+        return;
+    };
+    for name in list.split([' ', ',']).filter(|s| !s.is_empty()) {
+        run_scenario(name);
+    }
+}
